@@ -74,7 +74,7 @@ def errname(e):
 class Env:
     """one real storage (+ optional DB) below `root`"""
 
-    def __init__(self, root, flavor, keep_old=False, pack_gc=True):
+    def __init__(self, root, flavor, keep_old=False, pack_gc=True, hex=False):
         import ZODB.blob
         from ZODB.FileStorage import FileStorage
         from ZODB.MappingStorage import MappingStorage
@@ -113,6 +113,14 @@ class Env:
         self.intruder_aborted = 0
         self._interpose()
         self._probe_finish()
+        # `top`: what the DB (and the iterator used for observation) talks to.  hex: a record-transforming
+        # wrapper (ZODB.tests.hexstorage) around the FileStorage — created AFTER the interposition so that the
+        # methods it copies are the recorded ones; the blob layer below must untransform before asking
+        # "is this a blob record?" (pack tags, undo's blob copy)
+        self.top = self.storage
+        if hex:
+            from ZODB.tests.hexstorage import HexStorage
+            self.top = HexStorage(self.storage)
 
     # ------------------------------------------------------------------ set-up / tear-down
     def _patch_blobfile(self):
@@ -140,7 +148,7 @@ class Env:
 
     def open_db(self):
         import ZODB
-        self.db = ZODB.DB(self.storage)
+        self.db = ZODB.DB(self.top)
         return self.db
 
     def close(self):
@@ -188,7 +196,7 @@ class Env:
         """[(oid, tid, kind)] from storage.iterator(); kind 'blob' | 'plain' | 'none'"""
         from ZODB.blob import is_blob_record
         out = []
-        it = self.storage.iterator()
+        it = self.top.iterator()
         try:
             for t in it:
                 for r in t:
@@ -489,7 +497,7 @@ def copy_to_fresh(src, root, expected):
     problems = []
     try:
         try:
-            dst.storage.copyTransactionsFrom(src.storage)
+            dst.storage.copyTransactionsFrom(src.top)
         except Exception as e:
             problems.append(('C13:copy-failed', 'copyTransactionsFrom raised %s: %s' % (type(e).__name__, str(e)[:120])))
         files, stray = dst.scan()
